@@ -863,8 +863,10 @@ class RlRaggedRowSum(Family):
         ctx.skolem(z3.And(0 <= r2, r2 < n, 1 <= c2, c2 < VL(r2)))
         # lemmaA (proved above by induction on k, for arbitrary r, c, k) is used at exactly two instances: the whole first run and the whole run c2
         # (stated as ground instances rather than as a schema over the pool: the products k * value would be instantiated pool^3 times)
-        ctx.assume(z3.simplify(lemmaA(r2, z3.IntVal(0), B(r2, 1) - B(r2, 0))))
-        ctx.assume(z3.simplify(lemmaA(r2, c2, B(r2, c2 + 1) - B(r2, c2))))
+        # (written with the product in the operand order of the code's `values * lengths`, the row positions simplified by hand)
+        inst = lambda c_: z3.Implies(z3.And(0 <= c_, c_ < VL(r2)), DS(r2, B(r2, c_ + 1)) == DS(r2, B(r2, c_)) + W(r2, c_) * (B(r2, c_ + 1) - B(r2, c_)))
+        ctx.assume(inst(z3.IntVal(0)))
+        ctx.assume(inst(c2))
         fl = prod.ravel()
         prow = prod._shape.rowof
         q0, q = PS_(r2), PS_(r2) + c2
@@ -872,10 +874,10 @@ class RlRaggedRowSum(Family):
         cellp = [r2, r2 + 1, n, z3.IntVal(0), z3.IntVal(1)]
         ctx.prove("lemmaB.base: the fold over the first run is the decoded prefix sum at its end", invB(z3.IntVal(1)),
                   pool=cellp + [q0, q0 + 1, prow(q0), prow(q0) + 1, B(r2, 1) - B(r2, 0), VL(r2)], live=[c2],
-                  without=["B increasing", "run of a position", "DS.step", "fold.step", "S>=0"])
+                  without=["B increasing", "run of a position", "DS.step", "fold.step", "S>=0"], abstract_products=True)
         ctx.prove("lemmaB.step: one more run", z3.Implies(invB(c2), invB(c2 + 1)),
                   pool=cellp + [c2, c2 + 1, q0, q, q + 1, prow(q), prow(q) + 1, B(r2, c2 + 1) - B(r2, c2), VL(r2)],
-                  without=["B increasing", "run of a position", "DS.step", "S>=0"])
+                  without=["B increasing", "run of a position", "DS.step", "S>=0"], abstract_products=True)
         ctx.assume_forall("lemmaB (by induction on the number of runs)", lambda r_, c_: z3.Implies(z3.And(0 <= r_, r_ < n, 1 <= c_, c_ <= VL(r_)),
                           fold(PS_(r_), PS_(r_) + c_) == DS(r_, B(r_, c_))), arity=2)
         r3 = z3.Int("r3")
